@@ -21,16 +21,40 @@ def _stream(text, ts, timeout, depth, scorer, rel=1.0):
     return out
 
 
+class _RoundedScorer(qa.Scorer):
+    """The shipped model with scores rounded to integers: non-constant AND full of exact ties."""
+
+    def __init__(self):
+        self.inner = qa.fresh_scorer("shipped")
+
+    def score(self, txt, ts, pp):
+        return float(round(self.inner.score(txt, ts, pp)))
+
+    def score_final(self, txt, ts, pp, prod):
+        return float(round(self.inner.score_final(txt, ts, pp, prod) / 50.0))
+
+
+def _mk_scorer(case):
+    """A fresh scorer per use (the builder and the independently recorded stream must see the same scores)."""
+    kind = case.get("scorer", "dummy")
+    if kind == "rounded":
+        return _RoundedScorer()
+    if kind == "random":
+        from random import Random
+        return qa.RandomScorer(Random(case.get("sseed", 1)))
+    return qa.fresh_scorer(kind)
+
+
 def obs_entry(case):
     """case["entries"]: list of (text, ts, gold string) handed to the builder in ONE call."""
     ents = case["entries"]
     exp = []
     if case["builder"] == "make_partial_rule_dataset":
         entries = [C.TimeParseEntry(text=t, ts=datetime(*ts), gold=C.parse_nb_string(g)) for t, ts, g in ents]
-        samples = list(C.make_partial_rule_dataset(entries, qa.DummyScorer(), timeout=0, max_stack_depth=case["depth"]))
+        samples = list(C.make_partial_rule_dataset(entries, _mk_scorer(case), timeout=0, max_stack_depth=case["depth"]))
         sm = [{"X": list(x), "y": 1 if y else 0} for x, y in samples]
         for t, ts, g in ents:
-            exp.append({"cands": _stream(t, datetime(*ts), 0, case["depth"], qa.DummyScorer()), "gold": qa.val_json(C.parse_nb_string(g))})
+            exp.append({"cands": _stream(t, datetime(*ts), 0, case["depth"], _mk_scorer(case)), "gold": qa.val_json(C.parse_nb_string(g))})
     else:
         try:
             Xs, ys = C.run_corpus([(g, datetime(*ts).strftime("%Y-%m-%dT%H:%M"), [t]) for t, ts, g in ents])
@@ -98,6 +122,9 @@ def run(ctx):
     from .. import engine
     for text, ts, gold in entries:
         cases.append({"entries": [(text, ts, gold)], "builder": "make_partial_rule_dataset", "depth": 10})
+        # a value is streamed again when a later derivation scores strictly higher: non-constant scorers
+        for sc in ("shipped", "rounded"):
+            cases.append({"entries": [(text, ts, gold)], "builder": "make_partial_rule_dataset", "depth": 10, "scorer": sc})
         nm, ns = engine.text_size(text)
         if nm <= 9 and ns <= 30:
             cases.append({"entries": [(text, ts, gold)], "builder": "run_corpus", "depth": 0})
@@ -118,7 +145,7 @@ def run(ctx):
     cases.append({"entries": twins, "builder": "make_partial_rule_dataset", "depth": 10})
     cases.append({"entries": list(reversed(twins)), "builder": "make_partial_rule_dataset", "depth": 10})
     core.run_stage(ctx, "dataset-builders", cases, obs_entry, "TrainingTrace", sig_keys=("builder",),
-                   nontrivial=lambda c: (json.dumps(c["entries"]), c["builder"]))
+                   nontrivial=lambda c: (json.dumps(c["entries"]), c["builder"], c.get("scorer")))
     # duplication monotonicity
     docs_all = [d for n in (1, 2, 3) for d in itertools.product("ab", repeat=n)]
     cases = []
